@@ -98,14 +98,40 @@ def final_flush_arms():
     f = src.find("fn write_buffer_worker")
     if f < 0:
         die("write_buffer_worker not found in " + path)
-    fbody, _ = block_at(src, src.index("{", src.index(")", f)))
-    found = None
-    for l in re.finditer(r"\bloop\s*\{", fbody):
-        blk, _ = block_at(fbody, l.end() - 1)
-        if "flush_worker_shards(" in blk:
-            found = (l.start(), blk)
+
+    def body_of(name):
+        m = re.search(r"\bfn\s+%s\b[^{;]*\{" % re.escape(name), src)
+        if not m:
+            return None
+        return block_at(src, m.end() - 1)[0]
+
+    def loop_in(body):
+        hit = None
+        for l in re.finditer(r"\bloop\s*\{", body):
+            blk, _ = block_at(body, l.end() - 1)
+            if "flush_worker_shards(" in blk:
+                hit = (l.start(), blk)
+        return hit
+
+    # the loop sits in write_buffer_worker itself or in a helper it calls (followed transitively, nearest first):
+    # a refactor may move the shutdown drain into a function of its own
+    defined = set(re.findall(r"\bfn\s+(\w+)", src))
+    queue, seen, fbody, found = ["write_buffer_worker"], set(), None, None
+    while queue and found is None:
+        name = queue.pop(0)
+        if name in seen or name == "flush_worker_shards":
+            continue
+        seen.add(name)
+        body = body_of(name)
+        if body is None:
+            continue
+        hit = loop_in(body)
+        if hit is not None:
+            fbody, found = body, hit
+            break
+        queue += [c for c in re.findall(r"\b(\w+)\s*\(", body) if c in defined and c not in seen]
     if found is None:
-        die("the shutdown branch (with its final-flush loop) of write_buffer_worker was not found: no `loop { .. flush_worker_shards(..) .. }`")
+        die("the shutdown branch (with its final-flush loop) of write_buffer_worker was not found: no `loop { .. flush_worker_shards(..) .. }` in it or in the functions it calls")
     counters = re.findall(r"let\s+mut\s+(\w+)(?:\s*:\s*\w+)?\s*=\s*0(?:_?[ui]\w+)?\s*;", fbody[:found[0]])
     state = {"limit": None}
     arms = []  # (name, exits, bumps, guard)
@@ -141,8 +167,9 @@ def final_flush_arms():
             if guard is not None:
                 die("path `%s` bumps a counter after its limit check" % name)
             return walk(rest, name, bumps + [m.group(1)], guard)
-        m = re.match(r"match\s+(.*?)\s*\{", it, re.S)
+        m = re.match(r"(?:let\s+(?:mut\s+)?\w+(?:\s*:\s*[^=]+?)?\s*=\s*)?match\s+(.*?)\s*\{", it, re.S)
         if m and not it.startswith("match!"):
+            # (`let x = match e { arms };` is read like the bare match: an arm either leaves the loop or yields a value)
             mbody, end = block_at(it, it.index("{", m.end() - 1))
             if it[end:].strip(" ;"):
                 die("a match used as an expression inside a larger statement: %r" % it[:80])
